@@ -389,6 +389,11 @@ def extract_model(model, model_vars, cap=70000):
             for i in range(min(n, 64)):
                 o = {}
                 for f, (fk, arr) in desc["fields"].items():
+                    if fk.startswith("seq:"):
+                        ln = model.eval(z3.Select(arr[1], z3.IntVal(i)), model_completion=True)
+                        ln = max(0, min(ln.as_long(), 64)) if z3.is_int_value(ln) else 0
+                        o[f] = [_pyval(model.eval(z3.Select(z3.Select(arr[0], z3.IntVal(i)), z3.IntVal(j)), model_completion=True), "int") for j in range(ln)]
+                        continue
                     e = model.eval(z3.Select(arr, z3.IntVal(i)), model_completion=True)
                     o[f] = _pyval(e, "int" if fk == "link" else fk)
                 objs.append(o)
